@@ -350,3 +350,6 @@ package variants
 //@ # a functional contract: the coverage statement of C04 for it (F9) is checked bounded by oracle variants_regionsfromgff.
 //@ func RegionsFromGFF deterministic
 //@   modifies everything
+
+//@ func Variants spawns
+//@   modifies everything
